@@ -56,7 +56,8 @@ the model of `protowire.ConsumeField` cuts into records `rx`, `ry` (as the Go lo
 raw bytes — length test, `bytes.Equal` shortcut, the two per-number maps filled by appending every record,
 `reflect.DeepEqual` — answers exactly "for every field number the same bytes, all occurrences in order"; the
 records put together are the raw bytes again, and the key-set half of DeepEqual and the length test are
-redundant.  (This is also the rule of proto.Equal in the pinned protobuf version.) -/
+redundant on such (parsable) bytes — on unparsable bytes the length test is what answers before the parser
+fails, which is outside this theorem and tied / monitored.  (This is also the rule of proto.Equal in the pinned protobuf version.) -/
 theorem C16_unknown_fields_wire (bx by_ : Bytes) (rx ry : Unk)
     (hx : wireRecords bx = some rx) (hy : wireRecords by_ = some ry) :
     (eqUnknownRaw bx by_ = some true ↔ ∀ n, unkGroup n rx = unkGroup n ry) ∧
